@@ -21,7 +21,7 @@ import traceback
 VERIF = os.path.dirname(os.path.dirname(os.path.abspath(__file__)))
 LEAN_DIR = os.path.join(VERIF, "lean")
 REPO = os.environ.get("VERIF_REPO", "/repo")
-DRIVER = os.path.join(LEAN_DIR, ".lake", "build", "bin", "prefdriver")
+DRIVER = os.environ.get("VERIF_DRIVER") or os.path.join(LEAN_DIR, ".lake", "build", "bin", "prefdriver")   # override: experiments only
 CACHE = os.path.join(LEAN_DIR, ".lake", "verif-cache")
 STD_AXIOMS = {"propext", "Classical.choice", "Quot.sound"}
 FORBIDDEN = re.compile(
